@@ -367,6 +367,36 @@ def run_rts(block, ctx):
     ctx.sample(block[0])
 
 
+TH_LATS = [42.3333, -42.3333, 50.0, -50.0, 60.0, -60.0, 70.0, -70.0, 85.0, 1.0]
+TH_H0 = [-18.0, -6.0, -0.8333, -0.5667, 0.125, 5.0]
+
+
+def threshold_cases(tier):
+    """Declinations on a fine grid through both 'never crosses' thresholds (never rises / never
+    sets) for each latitude and standard altitude, twilight altitudes included."""
+    step = 0.05 if tier == "thorough" else 0.25
+    n = int(round(179.0 / step))
+    return [{"lon_w": 0.0, "lat": la, "a0": 41.73, "d0": round(-89.5 + k * step, 6), "motion": [0.0, 0.0], "h0": h0}
+            for la in TH_LATS for h0 in TH_H0 for k in range(n + 1)]
+
+
+def run_threshold(block, ctx):
+    for case in block:
+        ctx.evals += 1
+        res = check_rts(case)
+        for site, msg, dev in res:
+            ctx.viol(case, msg, dev=dev, site=site)
+        h0, lat, d0 = case["h0"], case["lat"], case["d0"]
+        up = 90.0 - abs(lat - d0)
+        lo = -90.0 + abs(lat + d0)
+        # culmination between the geometric horizon and the standard altitude: the narrow band in which
+        # a decision that ignores h0 goes wrong
+        if min(0.0, h0) <= up <= max(0.0, h0) or min(0.0, h0) <= lo <= max(0.0, h0):
+            ctx.nt_count += 1
+        ctx.outcome((lat, h0, len(res)))
+    ctx.sample(block[0])
+
+
 def clauses(tier):
     years = list(range(-1000, 3001))
     if tier == "thorough":
@@ -382,5 +412,7 @@ def clauses(tier):
         Clause("sunrise_sunset", chunks(riseset_cases(), 32), run_riseset,
                lambda c: [m for _, m, _ in check_riseset(c)], floor=100),
         Clause("rise_transit_set", chunks(rts_cases(), 32), run_rts,
+               lambda c: [m for _, m, _ in check_rts(c)], floor=200),
+        Clause("rts_threshold", chunks(threshold_cases(tier), 32), run_threshold,
                lambda c: [m for _, m, _ in check_rts(c)], floor=200),
     ]
